@@ -303,7 +303,7 @@ pub fn enumerate(n: u32, part: usize, parts: usize, sink: &mut EnumSink) {
                 let lo = l.iter().map(|x| x.0).max().unwrap();
                 let hi = l.iter().map(|x| x.1).min().unwrap();
                 let sets: Vec<CharSet> = l.iter().map(|&(a, b)| CharSet::range(a, b)).collect();
-                let got = CharSet::inter_list(&sets).map(|r| crate::bisim::bounds_of(&r));
+                let got = crate::runner::on_user_stack(|| CharSet::inter_list(&sets).map(|r| crate::bisim::bounds_of(&r)));
                 let exp = if lo <= hi { Some((lo, hi)) } else { None };
                 let mut o = Outcome::default();
                 o.evals += 1;
